@@ -791,4 +791,171 @@ theorem mpnPowmMem_correct (thr : Nat) (nextSize binvItch : Nat → Nat) (itch :
   unfold mpnPowmMem
   exact hfin
 
+/-! ### mpn_powlo on memory -/
+
+theorem load_store_same (a : List Nat) (off : Nat) (d : List Nat) (h : off + d.length ≤ a.length) :
+    store a off d = (a.take off ++ d ++ a.drop (off + d.length), true) ∧
+    load (a.take off ++ d ++ a.drop (off + d.length)) off d.length = (d, true) := by
+  refine ⟨by unfold store; rw [if_pos h], ?_⟩
+  unfold load
+  have hl : (a.take off ++ d ++ a.drop (off + d.length)).length = a.length := by
+    simp only [List.length_append, List.length_take, List.length_drop]; omega
+  rw [hl, if_pos h]
+  have htl : (a.take off).length = off := by rw [List.length_take]; omega
+  rw [List.append_assoc, List.drop_append, htl, Nat.sub_self, List.drop_zero,
+    List.drop_eq_nil_of_le (by omega), List.nil_append, List.take_append_of_le_length (by omega),
+    List.take_of_length_le (by omega)]
+
+/-- `r` holds `b^k mod B^n`. -/
+def GoodLo (b n : Nat) (r : List Nat) (k : Nat) : Prop :=
+  Limbs r ∧ r.length = n ∧ val r = b ^ k % B ^ n
+
+theorem mulLo_spec (b n : Nat) (s : St) (y : List Nat) (yok : Bool) (j k : Nat) (hn : 1 ≤ n)
+    (hok : s.ok = true) (hyok : yok = true) (htp : 2 * n ≤ s.tp.length)
+    (hx : GoodLo b n s.rp j) (hy : GoodLo b n y k) :
+    (mulLo n s y yok).ok = true ∧ (mulLo n s y yok).tp.length = s.tp.length ∧
+    GoodLo b n (mulLo n s y yok).rp (j + k) := by
+  have hdl : (toLimbs (2 * n) (val s.rp * val y)).length = 2 * n := toLimbs_length _ _
+  have hst := store_zero s.tp (toLimbs (2 * n) (val s.rp * val y)) (by rw [hdl]; exact htp)
+  have hld : load (toLimbs (2 * n) (val s.rp * val y) ++ s.tp.drop (2 * n)) 0 n =
+      ((toLimbs (2 * n) (val s.rp * val y)).take n, true) := by
+    unfold load
+    have : 0 + n ≤ (toLimbs (2 * n) (val s.rp * val y) ++ s.tp.drop (2 * n)).length := by
+      rw [List.length_append, hdl]; omega
+    rw [if_pos this, List.drop_zero, List.take_append_of_le_length (by rw [hdl]; omega)]
+  unfold mulLo
+  simp only [hst, hdl, hld, hok, hyok, Bool.and_self]
+  refine ⟨trivial, ?_, Limbs_take (Limbs_toLimbs _ _) _, ?_, ?_⟩
+  · rw [List.length_append, hdl, List.length_drop]; omega
+  · rw [List.length_take, hdl]; omega
+  · rw [← val_take_mod _ (Limbs_toLimbs _ _), val_toLimbs, hx.2.2, hy.2.2]
+    have hdvd : B ^ n ∣ B ^ (2 * n) := Nat.pow_dvd_pow B (by omega)
+    rw [Nat.mod_mod_of_dvd _ hdvd, ← Nat.mul_mod, pow_add]
+
+theorem inPPlo_of_le (n w i : Nat) (h : i ≤ 2 ^ (w - 1)) : inPPlo n w i = true := by
+  unfold inPPlo
+  rw [Nat.shiftLeft_eq]
+  have : n * i ≤ n * 2 ^ (w - 1) := Nat.mul_le_mul_left _ h
+  simpa using this
+
+theorem precompLo_spec (b n w : Nat) (tp b2 : List Nat) (hb2 : GoodLo b n b2 2)
+    (hload : load tp (2 * n) n = (b2, true)) :
+    ∀ (c j : Nat) (pp : List (List Nat)) (ok : Bool),
+      pp.length = 2 ^ (w - 1) + 1 → j + c + 1 = 2 ^ (w - 1) → ok = true →
+      (∀ i, i ≤ j → GoodLo b n (pp.getD i (zeros n)) (2 * i + 1)) →
+      (precompLo n w tp c j pp ok).2 = true ∧
+      ∀ i, i < 2 ^ (w - 1) → GoodLo b n ((precompLo n w tp c j pp ok).1.getD i (zeros n)) (2 * i + 1) := by
+  intro c
+  induction c with
+  | zero =>
+    intro j pp ok hpl hj hok hgood
+    simp only [precompLo]
+    exact ⟨hok, fun i hi => hgood i (by omega)⟩
+  | succ c ih =>
+    intro j pp ok hpl hj hok hgood
+    simp only [precompLo, hload]
+    have hx := hgood j (le_refl _)
+    set prod := toLimbs (2 * n) (val (pp.getD j (zeros n)) * val b2) with hprod
+    have hpl' : prod.length = 2 * n := toLimbs_length _ _
+    have hlow : GoodLo b n (prod.take n) (2 * (j + 1) + 1) := by
+      refine ⟨Limbs_take (Limbs_toLimbs _ _) _, by rw [List.length_take, hpl']; omega, ?_⟩
+      rw [← val_take_mod _ (Limbs_toLimbs _ _), val_toLimbs, hx.2.2, hb2.2.2]
+      have hdvd : B ^ n ∣ B ^ (2 * n) := Nat.pow_dvd_pow B (by omega)
+      rw [Nat.mod_mod_of_dvd _ hdvd, ← Nat.mul_mod, ← pow_add]
+      congr 2
+    have hok' : (ok && true && inPPlo n w j && inPPlo n w (j + 1) && inPPlo n w (j + 2)) = true := by
+      rw [hok, inPPlo_of_le n w j (by omega), inPPlo_of_le n w (j + 1) (by omega), inPPlo_of_le n w (j + 2) (by omega)]
+      rfl
+    apply ih (j + 1) _ _ (by rw [List.length_set, List.length_set]; exact hpl) (by omega) hok'
+    intro i hi
+    rw [getD_set_list _ _ _ _ _ (by rw [List.length_set]; omega), getD_set_list _ _ _ _ _ (by omega)]
+    have h2 : ¬ i = j + 2 := by omega
+    simp only [h2, if_false]
+    by_cases hij : i = j + 1
+    · simp only [hij, if_true]; exact hlow
+    · simp only [hij, if_false]; exact hgood i (by omega)
+
+/-- **mpn_powlo on memory**: with the documented `3n` limbs of scratch every access stays inside `tp`
+    (the square / low product in `tp[0..2n)`, `b^2` kept at `tp[2n..3n)`) and inside
+    `pp[0 .. (n << (w-1)) + n)` (including the high halves that MPIR's mpn_mullow_n writes), and
+    `rp[0..n)` = `b^e mod B^n`. -/
+theorem mpnPowloMem_correct (itch : Nat) (bp ep : List Nat) (n : Nat) (hbp : Limbs bp) (hbl : n ≤ bp.length)
+    (hn : 1 ≤ n) (hep : Norm ep) (hne : ep ≠ []) (h2 : 2 ≤ val ep) (hitch : 3 * n ≤ itch) :
+    (mpnPowloMem itch bp ep n).2 = true ∧
+    (mpnPowloMem itch bp ep n).1 = toLimbs n (val (bp.take n) ^ val ep % B ^ n) := by
+  set b := val (bp.take n) with hbd
+  have hebi := sizeinbase2_ge_two ep hep hne h2
+  obtain ⟨hw1, hw63⟩ := win_size_lo_bounds (sizeinbase2 ep) hebi
+  set w := win_size_lo (sizeinbase2 ep) with hw
+  have h2w : 1 ≤ 2 ^ (w - 1) := Nat.one_le_two_pow
+  have hBnpos : 0 < B ^ n := Nat.pow_pos B_pos
+  have htake : (bp.take n).length = n := by rw [List.length_take]; omega
+  have hb0 : GoodLo b n (bp.take n) 1 := by
+    refine ⟨Limbs_take hbp n, htake, ?_⟩
+    rw [pow_one, Nat.mod_eq_of_lt]
+    have := val_lt _ (Limbs_take hbp n)
+    rwa [htake] at this
+  -- b^2 at tp[2n..3n)
+  have htpl : (zeros itch).length = itch := zeros_length _
+  set s0 : St := { rp := bp.take n, tp := zeros itch, ok := true } with hs0
+  obtain ⟨m1, m2, m3⟩ := mulLo_spec b n s0 (bp.take n) true 1 1 hn rfl rfl (by rw [hs0]; simp only [htpl]; omega) hb0 hb0
+  have hmul0 : mulLo n s0 (bp.take n) true =
+      { rp := (load (store (zeros itch) 0 (toLimbs (2 * n) (b * b))).1 0 n).1,
+        tp := (store (zeros itch) 0 (toLimbs (2 * n) (b * b))).1,
+        ok := (true && true && (store (zeros itch) 0 (toLimbs (2 * n) (b * b))).2 &&
+          (load (store (zeros itch) 0 (toLimbs (2 * n) (b * b))).1 0 n).2) } := rfl
+  rw [hmul0] at m1 m2 m3
+  simp only at m1 m2 m3
+  set tpa := (store (zeros itch) 0 (toLimbs (2 * n) (b * b))).1 with htpa
+  set la := load tpa 0 n with hla
+  have hoka : (store (zeros itch) 0 (toLimbs (2 * n) (b * b))).2 = true ∧ la.2 = true := by
+    simp only [Bool.true_and, Bool.and_eq_true] at m1; exact m1
+  rw [hs0] at m2; simp only [htpl] at m2
+  obtain ⟨c1, c2⟩ := load_store_same tpa (2 * n) la.1 (by rw [m3.2.1, m2]; omega)
+  set tpc := tpa.take (2 * n) ++ la.1 ++ tpa.drop (2 * n + la.1.length) with htpc
+  rw [m3.2.1] at c2
+  have htpcl : tpc.length = itch := by
+    rw [htpc]; simp only [List.length_append, List.length_take, List.length_drop, m3.2.1, m2]; omega
+  have hok0 : (inPPlo n w 0 && (store (zeros itch) 0 (toLimbs (2 * n) (b * b))).2 && la.2 && (store tpa (2 * n) la.1).2) = true := by
+    rw [inPPlo_of_le n w 0 (by omega), hoka.1, hoka.2, c1]; rfl
+  set pp0 := (List.replicate (2 ^ (w - 1) + 1) (zeros n)).set 0 (bp.take n) with hpp0
+  have hpp0l : pp0.length = 2 ^ (w - 1) + 1 := by rw [hpp0, List.length_set, List.length_replicate]
+  have he0 : pp0.getD 0 (zeros n) = bp.take n := by
+    rw [hpp0, getD_set_list _ _ _ _ _ (by rw [List.length_replicate]; omega)]; simp
+  have htab := precompLo_spec b n w tpc la.1 (by have := m3; rwa [show 1 + 1 = 2 from rfl] at this) c2
+    (2 ^ (w - 1) - 1) 0 pp0 _ hpp0l (by omega) hok0
+    (by intro i hi
+        have : i = 0 := by omega
+        subst this
+        rw [he0]; exact hb0)
+  have hc1 : (store tpa (2 * n) la.1).1 = tpc := by rw [c1]
+  rw [← hc1] at htab
+  obtain ⟨t1, t3⟩ := htab
+  set T := precompLo n w (store tpa (2 * n) la.1).1 (2 ^ (w - 1) - 1) 0 pp0
+    (inPPlo n w 0 && (store (zeros itch) 0 (toLimbs (2 * n) (b * b))).2 && la.2 && (store tpa (2 * n) la.1).2) with hTd
+  have htc : (store tpa (2 * n) la.1).1.length = itch := by rw [store_length, m2]
+  let Rel : St → Nat → Prop := fun s k => s.ok = true ∧ s.tp.length = itch ∧ GoodLo b n s.rp k
+  have hsqr : ∀ s k, Rel s k → Rel (mulLo n s s.rp true) (2 * k) := by
+    intro s k ⟨h1, h2', h3⟩
+    obtain ⟨g1, g2, g3⟩ := mulLo_spec b n s s.rp true k k hn h1 rfl (by rw [h2']; omega) h3 h3
+    exact ⟨g1, by rw [g2, h2'], by rw [two_mul]; exact g3⟩
+  have hmul : ∀ s k i, i < 2 ^ (w - 1) → Rel s k →
+      Rel (mulLo n s (tableLo n w T.1 (store tpa (2 * n) la.1).1 T.2 i).rp (tableLo n w T.1 (store tpa (2 * n) la.1).1 T.2 i).ok)
+        (k + (2 * i + 1)) := by
+    intro s k i hi ⟨h1, h2', h3⟩
+    have hiok : (tableLo n w T.1 (store tpa (2 * n) la.1).1 T.2 i).ok = true := by
+      simp only [tableLo, t1, inPPlo_of_le n w i (by omega)]; rfl
+    obtain ⟨g1, g2, g3⟩ := mulLo_spec b n s (tableLo n w T.1 (store tpa (2 * n) la.1).1 T.2 i).rp
+      (tableLo n w T.1 (store tpa (2 * n) la.1).1 T.2 i).ok k (2 * i + 1) hn h1 hiok (by rw [h2']; omega) h3 (t3 i hi)
+    exact ⟨g1, g2.trans h2', g3⟩
+  have htabR : ∀ i, i < 2 ^ (w - 1) → Rel (tableLo n w T.1 (store tpa (2 * n) la.1).1 T.2 i) (2 * i + 1) := by
+    intro i hi
+    refine ⟨?_, htc, t3 i hi⟩
+    simp only [tableLo, t1, inPPlo_of_le n w i (by omega)]; rfl
+  have hres := windowExp_rel (fun s => mulLo n s s.rp true) (fun s t => mulLo n s t.rp t.ok)
+    (tableLo n w T.1 (store tpa (2 * n) la.1).1 T.2) Rel ep hep.1 hne (hep.2 hne) w hw1 hw63 hsqr hmul htabR
+  obtain ⟨f1, _, f3⟩ := hres
+  unfold mpnPowloMem
+  exact ⟨f1, eq_toLimbs _ _ _ f3.1 f3.2.1 f3.2.2⟩
+
 end Mpir.PowmL
